@@ -6,6 +6,7 @@ ROOT = os.path.dirname(os.path.dirname(os.path.abspath(__file__)))
 props = [json.loads(l) for l in open(os.path.join(ROOT, "properties.jsonl"))]
 base = json.load(open("/root/.vp/BASELINE.json"))
 checks, na = [], []
+MODS = []
 PENDING = {}
 # property checks that are complete (a module file may exist while a helper is still writing it)
 READY = set(open(os.path.join(ROOT, "tools", "ready.txt")).read().split())
@@ -16,6 +17,7 @@ for p in props:
         na.append({"property_id": pid, "reason": PENDING.get(pid, "check not built yet in this tree (Lean model of this part of lasio still to be written); not claimed")})
         continue
     m = importlib.import_module("harness.props." + pid.lower())
+    MODS.extend([m.MODULE] + list(getattr(m, "EXTRA_MODULES", [])))
     checks.append({
         "property_id": pid,
         "quick_cmd": "./check %s --tier quick" % pid,
